@@ -780,8 +780,10 @@ func (e *endpoint) handleClose() *tcpip.Error {
 // 只能从协议goroutine中调用此方法。
 func (e *endpoint) resetConnectionLocked(err *tcpip.Error) {
 	// Only send a reset if the connection is being aborted for a reason
-	// other than receiving a reset: a RST must never be answered.
-	if err != tcpip.ErrConnectionReset {
+	// other than receiving a reset: a RST must never be answered. (A
+	// keepalive time-out also reports ErrConnectionReset and does reset
+	// the peer.)
+	if !e.rstReceived {
 		e.sendRaw(buffer.VectorisedView{}, flagAck|flagRst, e.snd.sndUna, e.rcv.rcvNxt, 0)
 	}
 
@@ -825,6 +827,7 @@ func (e *endpoint) handleSegments() *tcpip.Error {
 				// validated by checking their SEQ-fields." So
 				// we only process it if it's acceptable.
 				s.decRef()
+				e.rstReceived = true
 				return tcpip.ErrConnectionReset
 			}
 		} else if s.flagIsSet(flagAck) {
